@@ -1,4 +1,4 @@
-import Mqtt5V.Proofs.TraceIn8
+import Mqtt5V.Proofs.TraceInOrder
 import Mqtt5V.Proofs.Replies
 /-! # C04 — inbound QoS 2 exactly once (waiter core)
 
